@@ -1065,6 +1065,10 @@ where
             }
             Some(0x26 /* & */) => {
                 if self.try_consume_str("&&") {
+                    // ClassIntersection :: ClassSetOperand && [lookahead ≠ &] ClassSetOperand
+                    if self.peek() == Some(0x26 /* & */) {
+                        return error("Unexpected character in class set intersection");
+                    }
                     result.union_operand(first.clone());
                     ClassSetOperator::Intersection
                 } else {
@@ -1155,6 +1159,9 @@ where
                     }
                     if self.next() != Some(0x26 /* & */) {
                         return error("Unbalanced class set bracket");
+                    }
+                    if self.peek() == Some(0x26 /* & */) {
+                        return error("Unexpected character in class set intersection");
                     }
                 }
             }
